@@ -1418,6 +1418,11 @@ impl<'a> Interp<'a> {
                 let v = self.read_var_elem(&orig_operand, None)?;
                 let n = if m == "INC" { v.v + 1 } else { v.v - 1 };
                 self.write_var_elem(&orig_operand, None, n & 0xff)?;
+                // a read-modify-write of the operand: one read and one write in the access trace
+                if let Some(a) = self.globals.get(&orig_operand).map(|g| Self::elem_addrs(g, 0).0) {
+                    self.events.push(Event::Load(a));
+                    self.events.push(Event::Store(a));
+                }
             }
             "STX" => {
                 let x = self.x;
